@@ -1204,6 +1204,9 @@ class Interp:
                 tr=trans.TR_ATTR.get(attr))
         if attr == "_vertices":
             v.tags = v.tags | {("rows-of", "_vertices", 0)}      # number of rows relative to the vertex count
+            v.tags = v.tags | {("shape-last", 3, 2)}             # every vertex array of the library is (n, 3)
+        if attr == "_normal" and kind == "arr":
+            v.tags = v.tags | {("shape-last", 3, 1)}
         if attr in self.config.get("maybe_int_attrs", ()):
             v.tags = v.tags | {"maybe-int"}          # stored as np.array(value) without dtype: integer input stays integer
         if attr in ("_vertices", "_centroid"):
@@ -1328,6 +1331,15 @@ class Interp:
         return out
 
     def _subscript(self, base: Val, idx: Val, node, st) -> Val:
+        # x.shape[i]: the row count is a count of x (as len(x) is); a last axis of statically known size is that constant
+        if base.kind == "tuple" and isinstance(base.extra, tuple) and len(base.extra) == 2 and base.extra[0] == "shape" \
+                and idx.has_const() and isinstance(idx.const, int) and not isinstance(idx.const, bool) and base.elem is not None:
+            src = base.extra[1]
+            sl = self.np.shape_last(src)
+            if sl and (idx.const == -1 or idx.const == sl[1] - 1):
+                return Val(kind="int", dim=D0, const=sl[0], born=self.time)
+            if idx.const == 0:
+                return base.elem.copy(extra=("len", src), born=self.time)
         # containers with known items
         if base.items is not None and idx.has_const() and isinstance(idx.const, int) and not isinstance(idx.const, bool):
             try:
@@ -1408,6 +1420,12 @@ class Interp:
                         lo = hi = "?"
                     if isinstance(lo, int) and lo >= 0 and (hi is None or (isinstance(hi, int) and hi < 0)):
                         tags = tags | {("rows-of", tg[1], tg[2] - lo + (hi or 0))}
+        sl_ = self.np.shape_last(base)
+        if sl_ and sl_[1] == 2 and kind in ("arr", "unknown"):
+            if idx.kind == "slice" or idx.kind in ("idx", "idxlist"):
+                tags = tags | {("shape-last", sl_[0], 2)}            # a selection of rows
+            elif idx.kind == "int":
+                tags = tags | {("shape-last", sl_[0], 1)}            # one row
         point_like = any(isinstance(t_, tuple) and t_[0] == "getter-of" and t_[1] in ("centroid", "center") for t_ in base.tags) \
             or (base.al and all(loc_[1] == "_centroid" for loc_ in base.al))
         if point_like and idx.kind in ("slice", "int") and kind in ("arr", "unknown", "float"):
@@ -1522,6 +1540,10 @@ class Interp:
         out = self._binop(op, l, r, st, node)
         if out.tr is None and not out.has_const():
             out.tr = trans.binop(op, l, r)
+        if out.kind in ("arr", "unknown") and isinstance(op, (ast.Add, ast.Sub, ast.Mult, ast.Div)) and self.np.shape_last(out) is None:
+            sl_ = self.np.broadcast_last(l, r)
+            if sl_:
+                out.tags = out.tags | {("shape-last", sl_[0], sl_[1])}
         rl = {t for t in l.tags if isinstance(t, tuple) and t[0] == "rows-of"}
         rr = {t for t in r.tags if isinstance(t, tuple) and t[0] == "rows-of"}
         ol_, or__ = order_of(l), order_of(r)
